@@ -21,11 +21,19 @@ func main() { Main("c05", run) }
 func run(seed uint64, n int, tier string, outDir string) []*Stats {
 	r := NewRng(seed)
 	st := NewStats("c05", seed)
-	cf := NewCoqFile("From V Require Import Common.Base C05.Syntax C05.Lower C05.Harness.")
+	cf := NewCoqFile("From V Require Import Common.Base C05.Syntax C05.Lower C05.Private C05.Harness.")
+	if os.Getenv("C05_ONLY") == "private-oracle" { // development aid: volume for one stream
+		privOracle(r, st, n)
+		st.Finish("private oracle only")
+		return []*Stats{st}
+	}
 	modelStream(r, st, cf, n)
+	privStream(r, st, cf, n/2)
+	privHelperPin(st)
 	glueStream(r, st, n, tier)
+	privOracle(r, st, n/5)
 	witnessReplay(st)
-	st.Finish("model stream: seeded MiniJS trees (chains of ./[]/() links with every OptionalChain flag, ??, ??=, ||=, &&=, **=, **, delete, assignment; literal/identifier/this/call operands) + a fixed grid, lowered by api.Transform under Supported overrides, reparsed by js_parser.Parse and compared with the Coq model modulo temp renaming; glue stream: generated programs (hlib/jsgen + class/async/destructuring/template/spread generator) x targets ES2015..ES2022 and single-feature overrides x minify-syntax, original vs output executed in Node with probe logs compared after async completion; distinct_nontrivial = distinct (program, configuration) pairs that exercise at least one lowered construct")
+	st.Finish("model stream: seeded MiniJS trees (chains of ./[]/() links with every OptionalChain flag, ??, ??=, ||=, &&=, **=, **, delete, assignment; literal/identifier/this/call operands) + a fixed grid, lowered by api.Transform under Supported overrides, reparsed by js_parser.Parse and compared with the Coq model modulo temp renaming; private stream: every private-name expression form (get, set, in, call, compound arithmetic, ??=/||=/&&=) x every member kind (field, method, getter, setter, pair, static) x captured/duplicated targets, lowered with all class-private-* features unsupported and compared with the Coq model plower, plus a pin of the helper bodies in runtime.go; glue stream: generated programs (hlib/jsgen + class/async/destructuring/template/spread generator) x targets ES2015..ES2022 and single-feature overrides x minify-syntax, original vs output executed in Node with probe logs compared after async completion; private oracle: classes with every kind of private member, forms run on receivers with and without the brand (instances, foreign objects, primitives, null, the class, a subclass), targets es2015..es2021 and class-private-* overrides; distinct_nontrivial = distinct (program, configuration) pairs that exercise at least one lowered construct")
 	if err := os.WriteFile(filepath.Join(outDir, "c05_cases.v"), []byte(cf.String()), 0o644); err != nil {
 		panic(err)
 	}
